@@ -44,6 +44,7 @@ func runC19(c *Ctx) {
 		}
 		return migrationReach(c.P)[fnPart]
 	})
+	checkCurrentVersionPropagatesReadFailure(c, "C19-R1")
 	up := c.P.Func("walletdb/migration", "", "upgrade")
 	vta := c.P.Func("walletdb/migration", "", "VersionsToApply")
 	glv := c.P.Func("walletdb/migration", "", "GetLatestVersion")
@@ -1040,4 +1041,51 @@ func sortCallsIn(p *Program, fn *ssa.Function) []sortStep {
 		}
 	}
 	return out
+}
+
+// checkCurrentVersionPropagatesReadFailure: "a database whose version this software cannot read is refused unmodified"
+// starts where the version is read: a manager's CurrentVersion hands the read's error on. Mapped to "version 0" the
+// driver sees a database older than everything, runs every migration over a format it does not understand and stamps
+// its own latest version on it.
+func checkCurrentVersionPropagatesReadFailure(c *Ctx, rule string) {
+	p := c.P
+	n := 0
+	for _, fn := range p.RepoFuncs {
+		if fn.Parent() != nil || fn.Name() != "CurrentVersion" || recvName(fn) != "MigrationManager" {
+			continue
+		}
+		for _, ci := range callsOf(fn) {
+			call, ok := ci.(*ssa.Call)
+			if !ok || !tupleHasErr(call.Type()) {
+				continue
+			}
+			g := call.Call.StaticCallee()
+			if g == nil || fnPkgPath(g) != fnPkgPath(fn) {
+				continue
+			}
+			n++
+			// from the non-nil edge of the read's error no success return is reachable
+			bad := false
+			for _, b := range fn.Blocks {
+				r, ok := b.Instrs[len(b.Instrs)-1].(*ssa.Return)
+				if !ok || p.classifyReturn(r, nil) == retError {
+					continue
+				}
+				// success return: reachable without having taken the nil edge of the read's error?
+				if reachableAvoiding(fn, call, r, func(from *ssa.BasicBlock, si int) bool {
+					ef := edgeFactOf(from, si)
+					return ef != nil && ef.Kind == "nil" && loadIsResultOf(ef.V, call)
+				}) {
+					// a plain `return f(ns)` hands the pair on: not a success return of its own
+					if ex, ok := effectiveResult(r, len(r.Results)-1).(*ssa.Extract); ok && ex.Tuple == ssa.Value(call) {
+						continue
+					}
+					bad = true
+				}
+			}
+			c.Check(rule, "current-version-propagates-read-failure:"+shortPkg(fnPkgPath(fn)), call.Pos(), !bad,
+				fnName(fn)+" can report a version (and no error) although reading the stored version failed: an unreadable — newer — database is taken for an old one, migrated and re-stamped instead of being refused untouched")
+		}
+	}
+	c.Floor(rule, "version reads of the migration managers", n, 2)
 }
